@@ -136,6 +136,49 @@ def newer_versions():
     return out
 
 
+USER_CONFIG_CHILD = r"""
+import json, os, sys, tempfile
+import signac
+from signac.errors import IncompatibleSchemaVersion
+out = []
+for declared in ("2", "absent", "1", "3", "10"):
+    with tempfile.TemporaryDirectory() as d:
+        root = os.path.join(d, "p")
+        os.makedirs(os.path.join(root, ".signac"))
+        open(os.path.join(root, ".signac", "config"), "w").write("" if declared == "absent" else "schema_version = %s\n" % declared)
+        for nm, fn in (("Project", lambda: signac.Project(root)), ("get_project", lambda: signac.get_project(root)), ("init_project", lambda: signac.init_project(root))):
+            try:
+                fn()
+                if declared != "2":
+                    out.append([nm, declared, "opened"])
+            except IncompatibleSchemaVersion:
+                if declared == "2":
+                    out.append([nm, declared, "refused"])
+            except Exception as e:
+                out.append([nm, declared, "%s: %s" % (type(e).__name__, e)])
+print("RESULT " + json.dumps(out))
+"""
+
+
+def user_config_check():
+    """the gate reads the version the *project* declares: a user-level ~/.signacrc (empty, declaring 2, declaring 1) changes nothing about
+    which projects are opened and which are refused.  ~ is resolved when signac is imported, so each variant runs in a child process"""
+    import subprocess
+    import sys
+    out = []
+    for label, content in (("empty", ""), ("declaring 2", "schema_version = 2\n"), ("declaring 1", "schema_version = 1\n")):
+        with dir_scratch() as home:
+            open(os.path.join(home, ".signacrc"), "w").write(content)
+            r = subprocess.run([sys.executable, "-c", script_header() + USER_CONFIG_CHILD], env=dict(os.environ, HOME=home), capture_output=True, text=True, timeout=120)
+            line = [l for l in r.stdout.splitlines() if l.startswith("RESULT ")]
+            if not line:
+                out.append((f"user-config:{label}:crashed", f"with a ~/.signacrc {label}: the session crashed: {r.stderr[-300:]}"))
+                continue
+            for nm, declared, what in json.loads(line[0][7:]):
+                out.append((f"user-config:{label}:{declared}:{nm}", f"with a ~/.signacrc {label}: {nm} on a project declaring schema version {declared}: {what}"))
+    return out
+
+
 def relative_path_session_check():
     """the version gate looks at the directory it is asked about, also when the same relative spelling ('.') was used for another
     project earlier in the session: a good project first, then '.' inside a project of another version / a legacy project"""
@@ -205,6 +248,9 @@ def run(tier="quick", seed=0):
             return [(key + ":raised", f"{fn.__name__} raised {type(e).__name__}: {str(e)[:200]} :: {traceback.format_exc()[-300:]}")]
     for key, desc in guarded(relative_path_session_check, "relative"):
         failures.append({"key": key, "description": desc, "script": script_header() + "sys.path.insert(0, '/verif')\nfrom pybound.c20 import relative_path_session_check\nr = relative_path_session_check()\nassert not r, r\n"})
+    for key, desc in guarded(user_config_check, "user-config")[:3]:
+        failures.append({"key": key, "description": desc, "script": script_header() + "sys.path.insert(0, '/verif')\nfrom pybound.c20 import user_config_check\nr = user_config_check()\nassert not r, r\n"})
+    evals += 3
     for key, desc in guarded(newer_versions, "newer"):
         failures.append({"key": key, "description": desc, "script": script_header() + "sys.path.insert(0, '/verif')\nfrom pybound.c20 import newer_versions\nr = newer_versions()\nassert not r, r\n"})
         evals += 1
